@@ -79,7 +79,7 @@ def run(ctx):
     ast_nodes.scope_wiring_items(ctx, REPO)
     # instantiating a class template keeps every enclosing scope (blocks) of its functions: ClassNode.clone, clone_scope_chain
     from contracts import ast_clone
-    eqv = ("m_equiv", lambda v: None, lambda nm: None, 140)
+    eqv = ("m_equiv", lambda v: None, lambda nm: None, 160)
     ctx.pyvc(ast_clone.UNITS, dict((u.name, eqv) for u in ast_clone.UNITS))
     try:
         from contracts import util_scope
@@ -116,7 +116,7 @@ def run(ctx):
                                     "command line (absolute and relative output directory)"})
         if r0["violation"]:
             ctx.violation("bounded/m_options", {"inputs": r0["inputs"], "observed": r0["violation"]}, True)
-        r = ctx.monitor("m_equiv", "search", 140, ctx.seed)
+        r = ctx.monitor("m_equiv", "search", 160, ctx.seed)
         ctx.bounded.append({"monitor": "m_equiv", "inputs_tried": r["tried"], "violation": r["violation"],
                             "kind": "two-run relations, deterministic core: empty blocks / container vs each function in every "
                                     "container kind, inline attributes vs attrs/fattrs"})
